@@ -396,15 +396,31 @@ func exprString(e ast.Expr) string {
 // skeleton: the calls of a function in source order (nested closures included), as callee names
 func skeleton(fd *ast.FuncDecl, keep func(string) bool) []string {
 	out := []string{}
-	ast.Inspect(fd.Body, func(n ast.Node) bool {
-		if call, ok := n.(*ast.CallExpr); ok {
-			name := strings.TrimSuffix(exprString(call), "()")
-			if keep(name) {
-				out = append(out, name)
+	// calls made inside a `go` statement (directly or in its function literal) are prefixed "go:",
+	// so that a tie can tell a fan-out from a sequential loop
+	var walk func(n ast.Node, inGo bool)
+	walk = func(n ast.Node, inGo bool) {
+		ast.Inspect(n, func(m ast.Node) bool {
+			if m == nil {
+				return false
 			}
-		}
-		return true
-	})
+			if g, ok := m.(*ast.GoStmt); ok && m != n {
+				walk(g.Call, true)
+				return false
+			}
+			if call, ok := m.(*ast.CallExpr); ok {
+				name := strings.TrimSuffix(exprString(call), "()")
+				if keep(name) {
+					if inGo {
+						name = "go:" + name
+					}
+					out = append(out, name)
+				}
+			}
+			return true
+		})
+	}
+	walk(fd.Body, false)
 	return out
 }
 
@@ -591,7 +607,7 @@ func main() {
 			"IsHealthCheckRequest", "claimTarget", "StartRequest", "nextTarget", "WithCancelCause", "updateRequestServiceMap", "syncTLSOptionsFromRootDomain",
 			"findOrCreateService", "deployTargetsIntoService", "serviceForName", "CopyWithOptions", "NewService", "SetRolloutSplit", "StopRollout",
 			"Resume", "loadBalancers", "Restore", "BeginHealthChecks", "stopHealthChecks", "MarkAllHealthy", "initialize", "Decode", "ReadFile", "Open",
-			"endInflightRequest", "handleProxyError", "Hijack", "State", "RequestUsesRolloutGroup":
+			"endInflightRequest", "handleProxyError", "Hijack", "State", "RequestUsesRolloutGroup", "After", "Done", "Targets", "Add":
 			return true
 		}
 		return false
@@ -600,7 +616,8 @@ func main() {
 		"Target.HealthCheckCompleted", "Target.Drain", "Target.StartRequest", "Service.Pause", "Service.Stop", "Service.serviceRequestWithTarget",
 		"Service.handlePausedAndStoppedRequests", "LoadBalancer.claimTarget", "ServiceMap.Set", "ServiceMap.Remove", "Router.PauseService",
 		"Router.SetRolloutTargets", "Router.DeployService", "Router.SetRolloutSplit", "Router.StopRollout", "Router.StopService", "Router.ResumeService",
-		"Router.RestoreLastSavedState", "Router.findOrCreateService", "Service.loadBalancerForRequest", "LoadBalancer.nextTarget", "Service.Resume"}
+		"Router.RestoreLastSavedState", "Router.findOrCreateService", "Service.loadBalancerForRequest", "LoadBalancer.nextTarget", "Service.Resume",
+		"LoadBalancer.WaitUntilHealthy", "LoadBalancer.DrainAll", "LoadBalancer.updateHealthyTargets", "Target.WaitUntilHealthy", "LoadBalancer.Dispose", "Service.Drain"}
 	b.WriteString("/-- ordered calls of interest in a fixed list of functions -/\ndef skeletons : List (String × List String) := [\n")
 	srows := []string{}
 	for _, n := range skel {
